@@ -29,7 +29,7 @@ from vf.gen import graphast as G
 
 PROP_ID = 'C14'
 LEVEL = 'exploration'
-BUDGET = {'quick': 6000, 'thorough': 250000}
+BUDGET = {'quick': 5000, 'thorough': 40000}
 RULE = (
     'Hypothesis draws a graph AST: 2-6 tasks (plain names, or 30 % of cases '
     'names with - + % @ and prefix-related pairs), each with a consistent '
